@@ -130,7 +130,9 @@ pub fn engine_secrets(rt: &tokio::runtime::Runtime, cases: Vec<Value>, out: &mut
         let override_ep = get_str(&case, "override_endpoint").map(subst);
         let input = get_str(&case, "input").unwrap_or("hello there").to_string();
         let (doctor, http, thread_id, session_id, sse) = rt.block_on(async {
-            let server = crate::srv::Server::start(data.clone(), ws.clone(), None, false).await;
+            // as `rip serve` does at start-up: the provider configuration the environment gives (None without an endpoint)
+            let from_env = ripd::verif_api::OpenResponsesConfig::from_env();
+            let server = crate::srv::Server::start(data.clone(), ws.clone(), from_env, false).await;
             let base = server.base.clone();
             let client = reqwest::Client::new();
             let v: Value = client.post(format!("{base}/threads/ensure")).send().await.unwrap().json().await.unwrap_or(Value::Null);
